@@ -17,7 +17,7 @@ import z3
 from .values import *  # noqa: F401,F403
 from .expr import ExprMixin
 from .calls import CallMixin
-from .values import (SliceView, AbsObj, AList, BoundMethod, BreakEx, Builtin, ClassRef, ContinueEx, EnumObj, ExcClass, ExcVal,
+from .values import (ConcatView, SliceView, AbsObj, AList, BoundMethod, BreakEx, Builtin, ClassRef, ContinueEx, EnumObj, ExcClass, ExcVal,
                      FuncRef, Infeasible, IterObj, Lambda, ModRef, NeedFork, NOTIMPL, Obj, Opt, OutsideSubset, PathEnd,
                      RaiseEx, RangeObj, ReturnEx, SymObj, UNDEF, ZipObj, fresh_name)
 
@@ -689,7 +689,7 @@ class Exec(ExprMixin, CallMixin):
 
     def seq_len_get(self, it):
         """(length term, getter(k)) for abstract iterables."""
-        if isinstance(it, (AList, SliceView)):
+        if isinstance(it, (AList, SliceView, ConcatView)):
             return it.n, it.get
         if isinstance(it, IterObj):
             n, g = self.seq_len_get(it.seq)
@@ -848,7 +848,7 @@ class Exec(ExprMixin, CallMixin):
             if v.kind == "str":
                 return self.branch(z3.Length(v.val) > 0)
             return True
-        if isinstance(v, AList):
+        if isinstance(v, (AList, SliceView)):
             return self.branch(v.n > 0)
         if isinstance(v, Obj):
             ln, _ = self.index.find_method(v.cls, "__len__")
